@@ -43,7 +43,10 @@ def replay(spec):
                                                                      [(r["kind"], r["var"]) for r in sp["rules"]]))
     v = unfrac(spec.get("values", {}))
     state = {s: float(v.get("s_" + s, 1.5 + i)) for i, s in enumerate(C13gen.SPECIES)}
-    glob = {g: float(v.get("g_" + g, sp["globals"][g])) for g in C13gen.GLOBALS}
+    glob = {g: float(v.get("g_" + g, sp["globals"][g])) for g in sp["globals"]}
+    missing = [g for g in glob if g not in M.get_parameter_dictionary()]
+    if missing:
+        return {"reproduced": True, "observed": "global parameters %s of the document are missing from the imported model" % missing, "expected": "document semantics"}
     M.set_params(glob)
     itf = ModelCSimInterface(M)
     itf.py_prep_deterministic_simulation()
